@@ -78,6 +78,38 @@ impl Prop for C07 {
                 if p.buf[10] != c.req[10] {
                     r.fail("C07:process_packet_response:cmd".to_string(), format!("response {} answers command {:#04x} but carries command code {:#04x}", hex(&p.buf[..p.len]), c.req[10], p.buf[10]));
                 }
+                // a Success answer carries exactly the answered command's response fields:
+                // the layout (field count and widths, reserved positions) is fixed by the
+                // statement whatever the values are (those are C13-C15's business)
+                if p.buf[9] & 0x80 == 0 && p.buf[11] == 0 {
+                    let d = &p.buf[12..p.len - 1];
+                    let bad: Option<String> = match p.buf[10] {
+                        0x01 if d.len() != 3 => Some(format!("Set Endpoint ID answer has {} field bytes, want status, EID, pool size", d.len())),
+                        0x01 if d[0] & 0xCC != 0 => Some(format!("status byte {:#04x} has bits outside 5:4 / 1:0", d[0])),
+                        0x01 if d[2] != 0 => Some(format!("pool size {:#04x}, want 0", d[2])),
+                        0x02 if d.len() != 3 => Some(format!("Get Endpoint ID answer has {} field bytes, want EID, type byte, medium-specific byte", d.len())),
+                        0x02 if d[1] & 0xCC != 0 => Some(format!("endpoint type byte {:#04x} has bits outside 5:4 / 1:0", d[1])),
+                        0x03 if d.len() != 16 => Some(format!("Get Endpoint UUID answer has {} field bytes, want 16", d.len())),
+                        0x04 if d != [0x01, 0xF1, 0xF3, 0xF1, 0x00] => Some(format!("version answer is {}, want one entry f1f3f100", hex(d))),
+                        0x05 if d.is_empty() || d[0] as usize != d.len() - 1 || d[0] > 30 => Some(format!("message type answer {}: the count does not match the {} types that follow", hex(d), d.len().saturating_sub(1))),
+                        0x06 if d.len() < 2 || d[1] > 1 || d.len() != (if d[1] == 0 { 6 } else { 8 }) => {
+                            Some(format!("vendor support answer {}: want next selector, format 0/1, a 2-byte (PCI) or 4-byte (IANA) ID and the 16-bit numeric value", hex(d)))
+                        }
+                        _ => None,
+                    };
+                    r.label(match p.buf[10] {
+                        0x01 => "pp_success_01",
+                        0x02 => "pp_success_02",
+                        0x03 => "pp_success_03",
+                        0x04 => "pp_success_04",
+                        0x05 => "pp_success_05",
+                        0x06 => "pp_success_06",
+                        _ => "pp_success_other",
+                    });
+                    if let Some(m) = bad {
+                        r.fail(format!("C07:process_packet_response:layout:cmd={:#04x}", p.buf[10]), format!("response {} to request {}: {}", hex(&p.buf[..p.len]), hex(&c.req), m));
+                    }
+                }
                 return r;
             }
         };
